@@ -104,6 +104,22 @@ def check(case):
             two.append(t)
         if [(t.type, t.text, t.lineno, t.offset) for t in two] != got:
             f.append(('token-iterator-two-loops:' + mode, '%s: list() gives %r, two for-loops give %r' % (short(s, 80), got[:6], [tuple(t)[:4] for t in two][:6])))
+        # a failed expect() in the middle: what is read afterwards is still a contiguous rest of the stream (with or without
+        # the offending token; the statement does not say which), nothing is skipped or delivered twice
+        if len(got) >= 3:
+            from penman.exceptions import DecodeError as _DE
+            it = lex(s, pattern=pat)
+            it.next()
+            try:
+                it.expect('NO-SUCH-TOKEN-TYPE')
+            except _DE:
+                pass
+            rest = []
+            while it:
+                rest.append(it.next())
+            rest = [(t.type, t.text, t.lineno, t.offset) for t in rest]
+            if rest != got[1:] and rest != got[2:]:
+                f.append(('token-iterator-after-failed-expect:' + mode, '%s: all tokens %r, after next() and a failed expect() %r' % (short(s, 80), got[:6], rest[:6])))
         if got != ref:
             f.append(('token-stream:' + mode, '%s: %r, reference scanner %r' % (short(s, 80), got[:8], ref[:8])))
         toks2 = list(lex(klines, pattern=pat))
